@@ -11,6 +11,8 @@ molecules in input-FILE order (ground truth = the generator's description, not `
 target sizes, numbers 1.., title/box equal the input's, residue numbers of the input molecule, names of the
 target, coordinates = a FRESH `exchange_map(mol)` to 0.5e-3 (references < 3 atoms: what C02 leaves
 determined); pre-flight failures raise SystemError and create no file.
+Byte level (C05 x C13): the composed model `Mgr.extrapolate ; MgrGro.toOps ; Gro.run` (the object of
+`C05.extrapolate_roundtrip`) predicts the written FILE, compared byte for byte (`extrapolate_bytes`).
 Model: the writer operations observed by wrapping `open_coordinate_file`, the `comment`/`box_matrix`
 setters, `GroFile.writeline`, `GroFile.close` are compared with `Mgr.extrapolate` fed with the molecules
 `System.__iter__` yielded and the molecules `ExchangeMap._restore_molecule` returned.
@@ -167,7 +169,8 @@ class Recorder:
             residues = []
             for res in new_mol.residues:
                 residues.append([(a.resname, a.name, int(a.atomid), a.velocity is not None,
-                                  [float(c) for c in a.position]) for a in res])
+                                  [float(c) for c in a.position],
+                                  None if a.velocity is None else [float(c) for c in a.velocity]) for a in res])
             rec.events.append(("restore", residues))
             return new_mol
 
@@ -224,9 +227,67 @@ def _model_tokens(title, box9, ext_ok, corr, mols):
         t += [hexs(name), str(len(resids))] + [str(r) for r in resids] + [str(int(acc)), str(len(residues))]
         for res in residues:
             t.append(str(len(res)))
-            for resname, aname, atomid, hv, pos in res:
+            for resname, aname, atomid, hv, pos in (a[:5] for a in res):
                 t += [hexs(resname), hexs(aname), str(atomid), str(int(hv))] + [fbits(c) for c in pos]
     return " ".join(t)
+
+
+def _bytes_tokens(title, box9, ext_ok, corr, mols):
+    """request of `extrapolate_bytes` (C05 x C13 composed model): as `_model_tokens`, numbers as exact dyadics,
+    velocities included; None when something is outside the byte model (non-finite number, non-latin-1 text)"""
+    from ..grogen import dy
+    try:
+        t = [hexs(title), "1" if ext_ok else "0"] + [dy(b) for b in box9]
+        t.append(str(len(corr)))
+        for name, hs, he, hm in corr:
+            t += [hexs(name), str(int(hs)), str(int(he)), str(int(hm))]
+        t.append(str(len(mols)))
+        for name, resids, acc, residues in mols:
+            t += [hexs(name), str(len(resids))] + [str(r) for r in resids] + [str(int(acc)), str(len(residues))]
+            for res in residues:
+                t.append(str(len(res)))
+                for resname, aname, atomid, hv, pos, vel in res:
+                    t += [hexs(resname), hexs(aname), str(atomid), str(int(hv))] + [dy(c) for c in pos]
+                    if hv:
+                        t += [dy(c) for c in vel]
+    except (ValueError, UnicodeEncodeError):
+        return None
+    return " ".join(t)
+
+
+def _ask_bytes(ctx, case, out, code, title, box9, ext_ok, corr, mols):
+    """the composed model (Mgr.extrapolate ; MgrGro.toOps ; Gro.run) predicts the output FILE byte for byte"""
+    # the byte model is list based (every write copies the file): quadratic in the file size, so the
+    # 400 kB shipped box is compared in the thorough tier only
+    if ctx.quick() and os.path.exists(out) and os.path.getsize(out) > 150000:
+        ctx.count("bytes:skipped-large-file-in-quick-tier")
+        return
+    toks = _bytes_tokens(title, box9, ext_ok, corr, mols)
+    if toks is None:
+        ctx.count("bytes:skipped-outside-byte-model")
+        return
+    data = None
+    if os.path.exists(out):
+        with open(out, "rb") as f:
+            data = f.read()
+    ctx.count("bytes:compared" if data is not None else "bytes:no-file")
+    if data is not None:
+        ctx.count("bytes:total", len(data))
+
+    def cb(status, toks, case, data=data, code=code):
+        merr = int(toks[0])
+        mbytes = unhexs(toks[1]).encode("latin-1")
+        if merr != code:
+            ctx.disagree(case, "extrapolate error (byte model)", code, merr)
+        elif (data or b"") != mbytes:
+            k = next((i for i, (a, b) in enumerate(zip(data or b"", mbytes)) if a != b),
+                     min(len(data or b""), len(mbytes)))
+            ctx.disagree(case, f"output file bytes (first difference at byte {k} of {len(data or b'')}/{len(mbytes)})",
+                         (data or b"")[max(0, k - 60):k + 60].decode("latin-1"),
+                         mbytes[max(0, k - 60):k + 60].decode("latin-1"))
+        elif data is None and mbytes:
+            ctx.disagree(case, "output file", "not created", "created")
+    ctx.model.ask("extrapolate_bytes", toks, cb, case)
 
 
 def _parse_model_ops(toks):
@@ -435,6 +496,9 @@ def _eval_extrap(ctx, case):
                 ctx.disagree(case, f"extrapolate ops (first difference at op {k} of {len(obs)}/{len(mops)})",
                              obs[k:k + 2], mops[k:k + 2])
         ctx.model.ask("extrapolate", _model_tokens(title, box9, mode != "badext", corr, mols), cb, case)
+        if rec.events or not rec.ops:
+            _ask_bytes(ctx, case, out, code, title, box9, mode != "badext", corr,
+                       mols if rec.events else [(m[0], m[1], m[2], []) for m in mols])
     finally:
         shutil.rmtree(workdir, ignore_errors=True)
 
@@ -650,5 +714,6 @@ def _eval_shipped(ctx, case):
                 ctx.disagree(case, "extrapolate ops (shipped)", len(obs), [merr, len(mops)])
         ctx.model.ask("extrapolate", _model_tokens(man.system.system_gro.comment_line, box9, True, corr,
                                                    rec.molecules()), cb, case)
+        _ask_bytes(ctx, case, out, 0, man.system.system_gro.comment_line, box9, True, corr, rec.molecules())
     finally:
         shutil.rmtree(workdir, ignore_errors=True)
